@@ -110,7 +110,29 @@ let () =
            if any_panic then Some "Writer panicked"
            else if any_hang then Some "Writer call did not return (no progress)"
            else if kind = "WHF" then (if c16w_monitor steps log then None else Some "after a failed destination write a later write/flush succeeded or more bytes were sent")
-           else if has_reset ops_l || List.length exts > 1 then None
+           else if List.exists (function WReset _ | WSetExt _ -> true | _ -> false) ops_l || List.length exts > 1 then None
+           else if List.exists (function WResetOp _ -> true | _ -> false) ops_l then begin
+             (* the quick opcode reset: what was buffered is dropped, then the writer behaves as a new one
+                with the new opcode, the same extensions and flush mode: judge the segment after the LAST ResetOp *)
+             let rec last_ro k best = function
+               | [] -> best
+               | st :: r -> last_ro (k+1) (match st.s_op with WResetOp _ -> Some k | _ -> best) r in
+             if List.exists (fun ob -> ob.o_err <> None) gobs then None
+             else (match last_ro 0 None steps with
+               | None -> None
+               | Some k ->
+                 let ro = List.nth steps k in
+                 let base = int_of_n ro.s_obs.o_calls in
+                 let op' = (match ro.s_op with WResetOp o -> o | _ -> op) in
+                 let rec drop n l = if n <= 0 then l else match l with [] -> [] | _ :: r -> drop (n-1) r in
+                 let steps2 = List.map (fun st -> { st with s_obs = { st.s_obs with o_calls = ni (int_of_n st.s_obs.o_calls - base) } }) (drop (k+1) steps) in
+                 let log2 = drop base log in
+                 let noflush_before = List.exists (fun st -> st.s_op = WDisableFlush) (K_reader.take_n k steps) in
+                 if int_of_n ro.s_obs.o_buffered <> 0 then Some "ResetOp did not drop the unflushed bytes"
+                 else if noflush_before then None
+                 else if c06_monitor client op' (List.exists (fun x -> x) exts) ro.s_obs.o_size steps2 log2 then None
+                 else Some "after ResetOp the writer does not send one well-formed message per flush with the new opcode (stale bytes, wrong opcode or RSV1)")
+           end
            else if c06_monitor client op (List.exists (fun x -> x) exts) w0.w_buflen steps log then None
            else Some "destination bytes are not one well-formed message per final flush carrying the accepted bytes" in
          (match viol with
